@@ -130,11 +130,15 @@ def chainStrict : List Range → Bool
   | [_] => true
   | a :: b :: rest => b.contains a && a != b && chainStrict (b :: rest)
 
-/-- `ranges.dedup()`-style removal of consecutive equal ranges (what makes a nested chain strict) -/
-def dedupAdj : List Range → List Range
+/-- the loop in `on_document_selection_range_handle` (innermost first): a range is kept only if it strictly
+contains the previously kept one -/
+def growFrom (last : Range) : List Range → List Range
   | [] => []
-  | [a] => [a]
-  | a :: b :: rest => if a = b then dedupAdj (b :: rest) else a :: dedupAdj (b :: rest)
+  | r :: rest => if r.contains last && r != last then r :: growFrom r rest else growFrom last rest
+
+def grow : List Range → List Range
+  | [] => []
+  | a :: rest => a :: growFrom a rest
 
 /-- text edits of one document never overlap -/
 def editsDisjoint : List Range → Bool
